@@ -131,6 +131,41 @@ fn geometry_content(kind: usize, w: usize, h: usize, seed: u64) -> Vec<u8> {
     }
     v
 }
+/// Localised detail: a flat image except for one span of columns (rows) - every span [a, b] of a
+/// 40-sample line - so that the part of an edge the filter has anything to do on starts and ends
+/// at every position relative to the 8-sample groups (inside one group, across groups, touching
+/// the borders). Three kinds of detail (gentle step, noise, extremes), three strengths.
+fn localized_sweep(rep: &Report, prop: &str, seed: u64) -> u64 {
+    let n = 40usize;
+    let spans: Vec<(usize, usize)> = (0..n).flat_map(|a| (a..n).map(move |b| (a, b))).collect();
+    spans.par_iter().for_each(|&(a, b)| {
+        let mut rng = Lcg::new(seed ^ (a as u64 * 4099 + b as u64));
+        for kind in 0..3usize {
+            for transposed in [false, true] {
+                let (w, h) = if transposed { (18usize, n) } else { (n, 18usize) };
+                let mut img = vec![96u8; w * h];
+                for y in 0..h {
+                    for x in 0..w {
+                        let along = if transposed { y } else { x };
+                        if along >= a && along <= b {
+                            let across = if transposed { x } else { y };
+                            img[y * w + x] = match kind {
+                                0 => 96 + if across >= 8 { 5 } else { 0 } + (along % 2) as u8,
+                                1 => rng.below(256) as u8,
+                                _ => if (across + along) % 2 == 0 { 0 } else { 255 },
+                            };
+                        }
+                    }
+                }
+                for s in [1u8, 6, 12] {
+                    check_image(rep, prop, w, h, s, &img, &format!("flat except {} {a}..={b}", if transposed { "rows" } else { "columns" }), true);
+                }
+            }
+        }
+    });
+    spans.len() as u64 * 18
+}
+
 const GEOM_NAMES: [&str; 6] = ["noise", "block-checker", "ramp-up", "ramp-down", "extremes", "small-steps"];
 
 fn check_image(rep: &Report, prop: &str, w: usize, h: usize, s: u8, data: &[u8], label: &str, compare_model: bool) {
@@ -320,6 +355,12 @@ pub fn run_c09(tier: Tier) -> Report {
         rep.add_states(n);
         rep.extra("self_related_images", json!(n));
     }
+    {
+        let nl = localized_sweep(&rep, "C09", seed);
+        rep.add_transitions(nl);
+        rep.add_states(nl);
+        rep.extra("localised_detail_images", json!(nl));
+    }
     // placement: the input slice at every byte offset 0..15 of its buffer (the result must not
     // depend on where the slice starts in memory)
     {
@@ -371,7 +412,7 @@ pub fn run_c09(tier: Tier) -> Report {
     }
     rep.set_rule(&format!(
         "kernel: (A,B,C,D) patterns x strengths 1..12 placed in images that isolate one pass ({} units of 65536 patterns; quick = all 2^32 for one strength (5 + VERIF_SEED mod 12) in the vector slot of the horizontal pass, 32x32 (A,B) lattice x all (C,D) for every strength, pass and slot kind (packed vector lanes, scalar remainder, alone in an otherwise flat vector group); thorough = all 2^32 x 12 x both passes x vector and scalar slots, and all 2^32 x 12 alone in an otherwise flat vector group of the horizontal pass); \
-         geometry: all widths 1..={maxw} x heights 0..={maxh} x 12 strengths x 6 contents {:?}; the input slice at every byte offset 0..15 of its buffer; images in which every second 8-column group / 8-row band holds what the filter (either pass, both, or none) makes of its neighbour, for every strength; all sequences of three calls over 30 (shape, strength, content) letters on one thread (purity); non-trivial = image with at least one filterable edge",
+         geometry: all widths 1..={maxw} x heights 0..={maxh} x 12 strengths x 6 contents {:?}; flat images with detail confined to every span of columns / rows; the input slice at every byte offset 0..15 of its buffer; images in which every second 8-column group / 8-row band holds what the filter (either pass, both, or none) makes of its neighbour, for every strength; all sequences of three calls over 30 (shape, strength, content) letters on one thread (purity); non-trivial = image with at least one filterable edge",
         units.len(), GEOM_NAMES
     ));
     rep.sample(json!({"kernel": {"A": 10, "B": 10, "C": 9, "D": 10, "strength": 5, "expected": annex_j(10, 10, 9, 10, 5)}}));
@@ -421,6 +462,10 @@ pub fn run_c16(tier: Tier) -> Report {
     });
     rep.add_states(wide.len() as u64 * 2);
     rep.extra("dense_window_and_prime_shapes", json!(wide.len()));
+    let nl = localized_sweep(&rep, "C16", seed);
+    rep.add_transitions(nl);
+    rep.add_states(nl);
+    rep.extra("localised_detail_images", json!(nl));
     rep.add_nontrivial(shapes.iter().filter(|(w, h)| *w < 10 || *h < 10).count() as u64 * 24);
     // Table J.2
     for q in 1..=31usize {
@@ -438,7 +483,7 @@ pub fn run_c16(tier: Tier) -> Report {
         rep.violation("C16/table-len", format!("table has {} entries", QUANT_TO_STRENGTH.len()), json!({"kind": "table-j2"}));
     }
     rep.set_rule(&format!(
-        "all widths 1..={maxw} x heights 0..={maxh} x strengths 1..=12 x 2 contents (noise, 0/255 extremes) + long thin extras + every height / width 1..700 (thorough 1500) at fixed widths / heights 24 and 1024 + prime sizes up to 10^6: no panic, length preserved, equal to the edge-by-edge model; the 31 table entries against the literal Table J.2; non-trivial = image with fewer than ten rows or columns"
+        "all widths 1..={maxw} x heights 0..={maxh} x strengths 1..=12 x 2 contents (noise, 0/255 extremes) + long thin extras + every height / width 1..700 (thorough 1500) at fixed widths / heights 24 and 1024 + prime sizes up to 10^6 + flat images with detail confined to every span [a, b] of columns / rows: no panic, length preserved, equal to the edge-by-edge model; the 31 table entries against the literal Table J.2; non-trivial = image with fewer than ten rows or columns"
     ));
     rep.sample(json!({"w": 5, "h": 0, "strength": 3, "expect": "empty output, no panic"}));
     rep.sample(json!({"w": 11, "h": 1, "strength": 12, "expect": "unchanged"}));
